@@ -201,6 +201,26 @@ def run(F, tier, res):
         res.violate('G3', 'stored-value', 'the known-writer does not store the KNOWN marker (stored %r, KNOWN=%r)' % (
             sorted(x for x in stored_vals if x is not None), max(consts.values())))
 
+    # ---- G9: KNOWN is published only together with a value. Both the background thread (G1) and the query (G4) read KNOWN as "the cell
+    # holds the command delta launched": a store of KNOWN on a path that does not write the cell leaves it Pending for ever - the
+    # thread then skips its own write, and the first query waits on the condvar without end
+    n_g9 = 0
+    known_val = max(consts.values()) if consts else None
+    for p in sorted(F.fn_bodies):
+        for (si, sc) in [(i, c) for i, c in F.calls(p) if callee_of(c).endswith('Atomic::<usize>::store')]:
+            if not (len(sc['args']) > 1 and 'const' in sc['args'][1] and const_int(sc['args'][1]['const'], p) == known_val and known_val is not None):
+                continue
+            n_g9 += 1
+            wbs = set(writers.get(p, []))
+            dom = F.dominators(p)
+            written_before = any(wb in dom[si] for wb in wbs)
+            from .. import rules as Ru
+            miss = Ru.must_pass(F, p, sc['target'], wbs) if (sc['target'] is not None and not written_before) else []
+            if not written_before and (miss or not wbs):
+                res.violate('G9', 'fn=%s' % p, 'the KNOWN marker is stored on a path on which the calling-process cell is not written: the cell stays Pending, the background '
+                            'thread (which trusts KNOWN) skips its own write, and a query blocks for ever', where=F.span_of_call(sc))
+    res.rule('C20.G9', n_g9, 1, 'stores of the KNOWN marker: each dominated by, or followed on every path by, a write through the CALLER guard')
+
     # ---- G2: write followed by notify ----
     def notify_free_return(p, start_blocks, skip_first=False):
         """returns reachable from start_blocks without passing notify_all. For a write block (skip_first) a notify
